@@ -505,7 +505,7 @@ def run_check(prop, tier):
             if per_inv[inv] <= 3:
                 path = core.save_replay(prop, fam.driver, fam.trace_module, ops, inv, ev)
                 print(f"VIOLATION property={prop} replay={path}")
-                log(f"  invariant={inv} family={fam.name} script={sid} event={json.dumps(ev)[:400]}")
+                log(f"  invariant={inv} family={fam.name} script={sid} event={_evstr(ev)[:400]}")
         for fam, (sid, ln, inv, ev, ops) in other_all[:5]:
             log(f"[note] a trace of this run first violates an invariant of another property: {inv} "
                 f"(family {fam.name}, script {sid}); it is reported by that property's own check")
@@ -521,6 +521,10 @@ def run_check(prop, tier):
         shutil.rmtree(scratch, ignore_errors=True)
 
 
+def _evstr(ev):
+    return json.dumps({k: v for k, v in (ev or {}).items() if k != "_recorded"})
+
+
 def replay(path):
     body = json.load(open(path))
     scratch = tempfile.mkdtemp(prefix="vreplay-")
@@ -532,7 +536,7 @@ def replay(path):
             print("replay: no invariant violated")
             return 0
         for sid, ln, inv, ev, ops in recs:
-            print(f"replay: first violated invariant {inv} at event {ln}: {json.dumps(ev)}")
+            print(f"replay: first violated invariant {inv} at event {ln}: {_evstr(ev)}")
         print(f"VIOLATION property={body['property']} replay={path}")
         return 1
     finally:
